@@ -607,7 +607,8 @@ theorem deterministic_so2_value_one_out : so2Sat (detSO2 (1 : ℝ)) = false := b
   · rw [so2Sat_iff] at h; exact absurd h.2 (lt_irrefl _)
 
 /-- [EX] `RNG::halfNormalReal` is in `[r_min, r_max]` for every Gaussian draw and every focus, `halfNormalInt` in
-`[r_min, r_max]` (the model's `Int` does not overflow: finding F167 is the `(int)` cast of 2³¹ for `r_max = INT_MAX`). -/
+`[r_min, r_max]` (as fixed by b4cb23619: clamp in `double`, then the cast; findings F167 / F204 were the `(int)` cast of 2³¹
+for `r_max = INT_MAX` in the cast-then-clamp form; the model's `Int` does not overflow). -/
 theorem halfNormal_in_range :
     (∀ (rmin rmax : ℝ), rmin ≤ rmax → ∀ focus g : ℝ,
       rmin ≤ halfNormalReal rmin rmax focus g ∧ halfNormalReal rmin rmax focus g ≤ rmax) ∧
@@ -621,14 +622,20 @@ theorem precomputed_near_inbounds (lo hi near s : List ℝ) (hn : rvIn lo hi nea
     rvSat lo hi (preNearRv near s d) = true :=
   rvIn_sat lo hi _ (preNearRv_in lo hi near s hn hs hd)
 
-/-- [EX] Finding F166 (unchanged code): `sampleGaussian` passes the SIGNED draw `gaussian(0, σ)` as the distance; for
-`R¹ = [0, 1]`, mean `0`, stored state `1`, `σ = 1/2` and the draw `g = -1` the result is `-1/2`, out of bounds. -/
-theorem precomputed_gaussian_negative_fails :
-    rvIn [0] [1] [0] ∧ rvIn [0] [1] [1] ∧ preGaussRv [0] [1] (1 / 2 : ℝ) (-1) = [-(1 / 2)] ∧
-    rvSat [0] [1] (preGaussRv [0] [1] (1 / 2 : ℝ) (-1)) = false := by
-  have hd : preGaussRv [0] [1] (1 / 2 : ℝ) (-1) = [-(1 / 2)] := by
+/-- [EX] PrecomputedStateSampler::sampleGaussian as fixed by cf0cbdaed (F166) on R^n: mean and stored state inside the box ->
+the result is inside the box for EVERY Gaussian draw and every σ (the magnitude of the draw is the distance). -/
+theorem precomputed_gaussian_inbounds (lo hi mean s : List ℝ) (hm : rvIn lo hi mean) (hs : rvIn lo hi s) (sd g : ℝ) :
+    rvSat lo hi (preGaussRv mean s sd g) = true :=
+  rvIn_sat lo hi _ (preGaussRv_in lo hi mean s hm hs sd g)
+
+/-- [EX] Finding F166, the code BEFORE cf0cbdaed: the SIGNED draw `gaussian(0, σ)` was the distance; for `R¹ = [0, 1]`, mean `0`,
+stored state `1`, `σ = 1/2` and the draw `g = -1` the result is `-1/2`, out of bounds (the fixed code gives `1/2`). -/
+theorem precomputed_gaussian_old_negative_fails :
+    rvIn [0] [1] [0] ∧ rvIn [0] [1] [1] ∧ preGaussRvOld [0] [1] (1 / 2 : ℝ) (-1) = [-(1 / 2)] ∧
+    rvSat [0] [1] (preGaussRvOld [0] [1] (1 / 2 : ℝ) (-1)) = false := by
+  have hd : preGaussRvOld [0] [1] (1 / 2 : ℝ) (-1) = [-(1 / 2)] := by
     have hs : Real.sqrt ((0 : ℝ) + (0 - 1) * (0 - 1)) = 1 := by norm_num
-    simp only [preGaussRv, preNearRv, gaussian_val, rvDistSq, Num.sqrt, Num.ofNat, Nat.cast_zero, hs]
+    simp only [preGaussRvOld, preNearRv, gaussian_val, rvDistSq, Num.sqrt, Num.ofNat, Nat.cast_zero, hs]
     rw [if_pos (by norm_num)]
     simp only [rvInterp]
     norm_num
